@@ -111,9 +111,13 @@ ipc_pipe_stop(void *arg)
 	nni_aio_stop(&p->tx_aio);
 	nni_aio_stop(&p->neg_aio);
 	nng_stream_stop(p->conn);
-	nni_mtx_lock(&ep->mtx);
-	nni_list_node_remove(&p->node);
-	nni_mtx_unlock(&ep->mtx);
+	// A pipe that could not be completed (pipe_create failed) was
+	// never attached to an endpoint.
+	if (ep != NULL) {
+		nni_mtx_lock(&ep->mtx);
+		nni_list_node_remove(&p->node);
+		nni_mtx_unlock(&ep->mtx);
+	}
 }
 
 static int
